@@ -5,9 +5,10 @@
 
    Shape of a fragment program (what the real resolver produces for
         print: fn *X -> void : external
+        g1 :: e1  ...  gm :: em
         start :: fn do ... end ):
-     r_stmts = [ SExternalDefinition "print" pv ... ; SDefinition "start" sv ... (EFunction _ [] _ body _ _) _ ]
-   with body in the statement fragment below.  Side conditions on variable ids (all true of the real
+     r_stmts = SExternalDefinition "print" pv ... :: [SDefinition gi ...] ++ [SDefinition "start" sv ... (EFunction _ [] _ body _ _) _]
+   with the global definitions and body in the statement fragment below.  Side conditions on variable ids (all true of the real
    resolver's output: ids are indices into r_vars, every definition gets a new id):
      - every defined id is < |r_vars| + 1 (where the lowering starts numbering its temporaries),
      - a definition does not reuse an id that is in scope, nor the id of `print` or `start`. *)
@@ -128,21 +129,52 @@ Definition find_start (vars : list var) : option N :=
   | None => None
   end.
 
-(* STAGE 2 (stage 1 + assignments, if, loops):
-   `print` external + `start :: fn do ... end` whose body consists of
+(* a top-level definition whose value is not a function *)
+Definition is_plain_def (s : stmt) : bool :=
+  match s with
+  | SDefinition _ _ _ _ (EFunction _ _ _ _ _ _) _ => false
+  | SDefinition _ _ _ _ _ _ => true
+  | _ => false
+  end.
+
+Fixpoint split_last {A} (l : list A) : option (list A * A) :=
+  match l with
+  | [] => None
+  | x :: t => match split_last t with
+              | Some (i, y) => Some (x :: i, y)
+              | None => Some ([], x)
+              end
+  end.
+
+(* STAGE 3a (stage 2 + top-level global definitions):
+   the outer statements are  `print` external ; global definitions g :: e (e not a function) ; `start :: fn do ... end`
+   in this order, start last.  The value of a global is an expression of the fragment over the earlier globals.
+   The body of start (and the branches of if-expressions anywhere) consists of
      - definitions (constant or mutable) of int/bool-valued expressions, expression statements, nested blocks,
-     - assignments  x = e, x += e, x -= e, x *= e  to local variables,
-     - loops `loop c do ... end` with break and continue (the condition c without if-expressions);
-   expressions are int and bool literals, reads of local variables, + - *, the six comparisons,
+     - assignments  x = e, x += e, x -= e, x *= e  to variables in scope (locals and globals),
+     - loops `loop c do ... end` with break and continue; the condition c contains no if-expression
+       (noexit_expr; since /repo fcfe8d3 the type checker rejects break/continue in a loop condition, so
+       this is implied by acceptance for what matters: no break/continue can leave the condition);
+   expressions are int and bool literals, reads of variables in scope, + - *, the six comparisons,
    <=> (assert-equal), and/or/not, unary minus, calls of print with one argument, and if/elif/else
-   expressions and statements whose branches are statement lists. *)
+   expressions and statements whose branches are statement lists.
+   NOT yet in the fragment (stage 3b/4): user functions and their calls, ret, closures, blobs, tuples, lists,
+   enums/case, floats, strings, division. *)
 Definition frag (k : nat) (r : resolved) : bool :=
   let bound := N.of_nat (length (r_vars r)) + 1 in
   match r_stmts r with
-  | [SExternalDefinition name pv _ _ _; SDefinition _ sv _ _ (EFunction _ [] _ body _ _) _] =>
-      String.eqb name "print"
-      && match find_start (r_vars r) with Some s => s =? sv | None => false end
-      && negb (pv =? sv) && (pv <? bound) && (sv <? bound)
-      && match frag_stmts pv sv bound k [] body with Some _ => true | None => false end
+  | SExternalDefinition name pv _ _ _ :: rest =>
+      match split_last rest with
+      | Some (gs, SDefinition _ sv _ _ (EFunction _ [] _ body _ _) _) =>
+          String.eqb name "print"
+          && match find_start (r_vars r) with Some s => s =? sv | None => false end
+          && negb (pv =? sv) && (pv <? bound) && (sv <? bound)
+          && forallb is_plain_def gs
+          && match frag_stmts pv sv bound k [] gs with
+             | Some scg => is_some (frag_stmts pv sv bound k scg body)
+             | None => false
+             end
+      | _ => false
+      end
   | _ => false
   end.
